@@ -462,3 +462,124 @@ func fieldEntryValue(p *Prog, ld *ssa.UnOp) bool {
 	st := reachingFieldStoreE(p, ld, &e)
 	return st == nil && e
 }
+
+// reachingGrow: for a load of a slice field F of a heap object (m.Raw), a call of the module's
+// grow-like method on the same object that dominates the load such that between the call and the load
+// the field can only have been changed by that very method again (grow never shrinks: rule C03.grow
+// proves len >= n at its returns, and its only stores extend the slice). Returns the n of that call:
+// len(load) >= n.
+func reachingGrow(p *Prog, ld *ssa.UnOp) ssa.Value {
+	fa, ok := ld.X.(*ssa.FieldAddr)
+	if !ok {
+		return nil
+	}
+	fv := fieldOfAddr(fa)
+	grow := p.Meth("Message", "grow")
+	if fv == nil || grow == nil || len(grow.Params) != 2 {
+		return nil
+	}
+	gm, _ := modFields(p, grow, map[*ssa.Function]bool{})
+	if !gm[fv] {
+		return nil
+	}
+	fn := ld.Parent()
+	// the only function that stores the field, among everything a callee can reach, is grow itself
+	onlyGrowStores := func(g *ssa.Function) bool {
+		seen := map[*ssa.Function]bool{}
+		okAll := true
+		var walk func(f *ssa.Function)
+		walk = func(f *ssa.Function) {
+			if seen[f] || !okAll {
+				return
+			}
+			seen[f] = true
+			if f == grow {
+				return
+			}
+			if f.Blocks == nil {
+				return
+			}
+			eachInstr(f, func(b *ssa.BasicBlock, i int, in ssa.Instruction) {
+				if st, isS := in.(*ssa.Store); isS {
+					if sa, isFA := st.Addr.(*ssa.FieldAddr); isFA && fieldOfAddr(sa) == fv {
+						okAll = false
+					}
+				}
+			})
+			for _, cs := range p.CG().Sites[f] {
+				if cs.Dynamic || cs.ExtIface != "" {
+					if m, u := modFields(p, f, map[*ssa.Function]bool{}); m[fv] || u {
+						// conservative: an unknown callee that may touch the field
+						okAll = false
+					}
+				}
+				for _, c := range cs.Callees {
+					if p.isModuleFn(c) {
+						walk(c)
+					}
+				}
+			}
+		}
+		walk(g)
+		return okAll
+	}
+	k := newKeyer()
+	k.pureFieldLoads = true
+	base := k.Key(fa.X)
+	var cands []*ssa.Call
+	var kills []ssa.Instruction
+	eachInstr(fn, func(b *ssa.BasicBlock, i int, in ssa.Instruction) {
+		switch x := in.(type) {
+		case *ssa.Store:
+			if sa, isFA := x.Addr.(*ssa.FieldAddr); isFA && fieldOfAddr(sa) == fv {
+				kills = append(kills, x)
+			}
+		case *ssa.Call:
+			if _, isB := x.Call.Value.(*ssa.Builtin); isB {
+				return
+			}
+			if callsFn(x, grow) && len(x.Call.Args) == 2 && k.Key(x.Call.Args[0]) == base {
+				cands = append(cands, x)
+				return
+			}
+			killed := false
+			resolved := false
+			for _, cs := range p.CG().Sites[fn] {
+				if cs.Instr != ssa.CallInstruction(x) {
+					continue
+				}
+				resolved = true
+				if cs.Dynamic {
+					killed = true
+				}
+				for _, g := range cs.Callees {
+					m, u := modFields(p, g, map[*ssa.Function]bool{})
+					if (m[fv] || u) && !onlyGrowStores(g) {
+						killed = true
+					}
+				}
+			}
+			if !resolved {
+				killed = true
+			}
+			if killed {
+				kills = append(kills, x)
+			}
+		}
+	})
+	for _, c := range cands {
+		if !instrDominates(c, ld) {
+			continue
+		}
+		ok := true
+		for _, kl := range kills {
+			if reachableFrom(c, kl) && reachableAvoid(kl, ld, c) {
+				ok = false
+			}
+		}
+		if ok {
+			return c.Call.Args[1]
+		}
+	}
+	return nil
+}
